@@ -35,7 +35,7 @@ pub fn def() -> CheckDef {
                 ("rewrite_long_hybrids", 100 * m),
                 ("rewrite_constants", 100 * m),
                 ("rewrite_fewer_parens", 300 * m),
-                ("rewrite_renaming_more_names_than_depth", 50 * m),
+                ("rewrite_renaming_more_names_than_depth", 25 * m),
             ]
         },
         run,
